@@ -58,7 +58,7 @@ AddAlt(ety, a, at, exp, found, s, e) ==
 
 (* InputRef::add_alt_err(at, err) *)
 AddAltErr(ety, a, at, er) ==
-  IF ety = "empty" THEN a                                   \* zero-sized fast path: does nothing
+  IF ety = "empty" THEN SomeAlt(at, EmptyE)                 \* zero-sized fast path: record, nothing to prioritise
   ELSE IF ~a.some THEN SomeAlt(at, Norm(ety, er))
   ELSE IF a.pos = at THEN [a EXCEPT !.err = MergeErr(ety, a.err, Norm(ety, er))]
   ELSE IF a.pos > at THEN a
